@@ -21,9 +21,13 @@ func traceMW(id string) rux.HandlerFunc {
 }
 
 // buildTwin builds the router of a C07 case; capacity < 0 = caching disabled.
-func buildTwin(tb *Table, cfg RouterCfg, capacity int, nGlobal int, routeMW []int) *rux.Router {
+func buildTwin(tb *Table, cfg RouterCfg, capacity int, nGlobal int, routeMW []int, shared ...func(*rux.Router)) *rux.Router {
 	cfg.CacheCap = capacity
-	r := NewRouterVia(tb.Via, cfg.Options()...)
+	opts := cfg.Options()
+	if shared != nil {
+		opts = shared // option values the application built once and hands to several routers
+	}
+	r := NewRouterVia(tb.Via, opts...)
 	for i := 0; i < nGlobal; i++ {
 		r.Use(traceMW(fmt.Sprintf("g%d", i)))
 	}
@@ -73,12 +77,33 @@ func c07Case(t *T) {
 		routeMW[i] = r.IntN(3)
 	}
 	var hist []string
+	sharedOpts := chance(r, 1, 3)
 	t.Describe(func() any {
 		return map[string]any{"routes": tb.Describe(), "options": cfg.Describe(), "capacity": capacity,
-			"global_middleware": nGlobal, "route_middleware": routeMW, "history": hist}
+			"global_middleware": nGlobal, "route_middleware": routeMW, "history": hist,
+			"cached_router_built_from_option_values_used_for_another_router_before": sharedOpts}
 	})
 	plain := buildTwin(tb, cfg, -1, nGlobal, routeMW)
-	cached := buildTwin(tb, cfg, capacity, nGlobal, routeMW)
+	// a third of the cached routers are built from option values that another router (same
+	// paths, other handlers) was built from before; that router serves the request pool first
+	var decoy *rux.Router
+	var cached *rux.Router
+	if sharedOpts {
+		cfgC := cfg
+		cfgC.CacheCap = capacity
+		opts := cfgC.Options()
+		tbDecoy := &Table{Via: tb.Via}
+		for _, rt := range tb.Routes {
+			cp := *rt
+			cp.Name = "decoy-" + rt.Name
+			tbDecoy.Routes = append(tbDecoy.Routes, &cp)
+		}
+		decoy = buildTwin(tbDecoy, cfg, capacity, nGlobal, routeMW, opts...)
+		cached = buildTwin(tb, cfg, capacity, nGlobal, routeMW, opts...)
+		t.Count("routers.built_from_shared_option_values", 1)
+	} else {
+		cached = buildTwin(tb, cfg, capacity, nGlobal, routeMW)
+	}
 	t.AutoSample()
 
 	// pool of requests: prefer paths that resolve to dynamic routes
@@ -120,6 +145,11 @@ func c07Case(t *T) {
 		pool = append(pool, rq{"GET", "/"})
 	}
 
+	if decoy != nil {
+		for _, q := range pool {
+			_, _, _ = Serve(decoy, NewReq(q.m, q.p))
+		}
+	}
 	model := newLRU(capacity)
 	hits, evictions := 0, 0
 	maxLen := 200
